@@ -1,6 +1,6 @@
 (* C09 runner: decodes a case (configuration, API calls, recorded/scripted answers of the SSL object and of the wrapped
    transport), runs the model of Conc/TlsEof.v, encodes every action and every reported result. *)
-From EN Require Import Lib.Bytes Lib.Sx Conc.TlsBase Conc.TlsPump Conc.TlsEof.
+From EN Require Import Lib.Bytes Lib.Sx Conc.TlsBase Conc.TlsPump Conc.TlsEof Gen.ParamsC09.
 Open Scope Z_scope.
 
 Definition zeros (n : nat) : bytes := repeat 0%N n.
@@ -107,5 +107,19 @@ Definition run (x : sx) : sx :=
       let '(ob, rest) := sync_ops (Z.eqb raw 1) (Z.eqb std 1) ops' {| s_closed := false |} ans' in
       let ob' := if Z.eqb log_waits 1 then ob else filter (fun o => negb (is_wait o)) ob in
       L [L (map enc_sobs ob'); of_nat (length rest)]
+  (* the library's own default client path (ssl=True): first and last report + is the option still set afterwards *)
+  | L (A 2 :: A std :: L ops :: L answers :: A which :: _) =>
+      do ops' <- map_opt dec_op ops;
+      do ans' <- map_opt dec_sans answers;
+      let '(ob, rest) := sync_ops true (Z.eqb std 1) ops' {| s_closed := false |} ans' in
+      let rs := filter (fun o => match o with SRes _ => true | _ => false end) ob in
+      let reduce (o : sobs) := match o with
+                               | SRes (Ret (S _)) => L [A 1; A 0; A 1]
+                               | o' => enc_sobs o'
+                               end in
+      L [reduce (hd (SRes Desync) rs); reduce (last rs (SRes Desync));
+         A (if nth (Z.to_nat which) client_default_ctx_clears_ignore_eof false then 0 else 1)]
+  | L [A 3; A which] =>
+      L [A (if nth (Z.to_nat which) client_default_ctx_clears_ignore_eof false then 0 else 1)]
   | _ => bad_input
   end.
